@@ -499,6 +499,10 @@ func TestPropWrap(t *testing.T) {
 		weighted(actions, "burst", 1, func(rt *rapid.T) {
 			// many tiny wraps in one step, then a compared call
 			op := drawBegin(rt, rapid.SampledFrom([]string{"wrap_paragraph", "prepare"}).Draw(rt, "burstOf"))
+			if rapid.IntRange(0, 2).Draw(rt, "doBurst") != 0 {
+				m.apply(op)
+				return
+			}
 			op.Kind = "burst_" + op.Kind
 			alt := drawPara(rt)
 			if len(alt.Text) > 6 {
